@@ -18,6 +18,9 @@ from . import common
 
 
 def r_sign_program(ctx):
+    if getattr(ctx, "_feasprog_done", False):
+        return 1
+    ctx._feasprog_done = True
     repo = ctx.repo
     rec = common.reconstruction_fn(repo)
     root = common.solve_root(repo)
@@ -174,6 +177,8 @@ def r_sign_program(ctx):
         msg = "when the reconstructed expression has no constant term the value returned is `%r`, expected 0" % (ret0,)
     elif sorted(set(holder.get("helpers", []))) != ["prune_dict", "symmetrize_dict"]:
         msg = "the decomposition is read through %s, expected prune(symmetrize(...))" % holder.get("helpers")
+    if msg is None:
+        ctx.program_ok[("reconstruction",)] = True
     ctx.ob("R-SIGN", "PEP.%s::Lagrangian (unrolled)" % rec.name, msg is None,
            "objective - (sum l_k e_k - <R, Gram> - sum <D_m, M_m>), every tracked object once, its constant term returned" if msg is None else msg, loc(rec, rec))
     # the constant is absent: 0
